@@ -1,5 +1,6 @@
 import TRV.Oracle.Util
 import TRV.Model.Drivers
+import TRV.Spec.Genuine
 /-! Oracle operations for the four driver models: one line = configuration + a sequence of
     `s:<ttl>:<now>[:<rnd>]` (SendProbe) and `r:<packet hex>` (ReceiveProbe on that packet) steps;
     the answer has one token per step. -/
@@ -9,12 +10,14 @@ open TRV TRV.Oracle TRV.Drv
 inductive Op where
   | send (ttl now rnd : Nat)
   | recv (pkt : Bytes)
+  | judge (pkt : Bytes) (ttl : Nat) (ip : Bytes) (dest : Bool)   -- spec on an implementation outcome
 
 def parseOp (s : String) : Option Op :=
   match splitOn s ':' with
   | ["s", t, n] => do pure (.send (← t.toNat?) (← n.toNat?) 0)
   | ["s", t, n, r] => do pure (.send (← t.toNat?) (← n.toNat?) (← r.toNat?))
   | ["r", p] => (parseHex p).map .recv
+  | ["j", p, t, ip, d] => do pure (.judge (← parseHex p) (← t.toNat?) (← parseHex ip) (← parseBool d))
   | _ => none
 
 def showOut : Out → String
@@ -25,21 +28,25 @@ def showOut : Out → String
 
 /-- generic step loop over a driver state -/
 def runOps {σ : Type} (send : σ → Nat → Nat → Nat → SendRes σ) (recv : σ → Bytes → Out)
-    (st : σ) (ops : List Op) : List String :=
+    (judge : σ → Nat → Bytes → Bool → Bytes → Bool) (st : σ) (ops : List Op) : List String :=
   match ops with
   | [] => []
   | .send t n r :: rest =>
     match send st t n r with
-    | .ok st' pkt => s!"w:{toHex pkt}" :: runOps send recv st' rest
-    | .err => "serr" :: runOps send recv st rest
-  | .recv p :: rest => showOut (recv st p) :: runOps send recv st rest
+    | .ok st' pkt => s!"w:{toHex pkt}" :: runOps send recv judge st' rest
+    | .err => "serr" :: runOps send recv judge st rest
+  | .recv p :: rest => showOut (recv st p) :: runOps send recv judge st rest
+  | .judge p t a d :: rest =>
+    s!"g:{showBool (judge st t a d (p.take Wire.bufSize))}" :: runOps send recv judge st rest
 
 def icmp : Handler
   | l :: t :: e :: mn :: mx :: ops => orBad do
     let cfg : IcmpCfg := { localA := ← parseHex l, target := ← parseHex t, echoId := ← e.toNat?,
                            min := ← mn.toNat?, max := ← mx.toNat? }
     let ops ← ops.mapM parseOp
-    pure (" ".intercalate (runOps (fun s t n _ => icmpSend s t n) icmpRecv { cfg, sent := [] } ops))
+    pure (" ".intercalate (runOps (fun s t n _ => icmpSend s t n) icmpRecv
+      (fun s t a d p => if cfg.localA.length = 16 then Spec.genuineIcmp6 s.cfg s.sent t a d p else Spec.genuineIcmp4 s.cfg s.sent t a d p)
+      { cfg, sent := [] } ops))
   | _ => badOp
 
 def udp : Handler
@@ -47,7 +54,9 @@ def udp : Handler
     let cfg : UdpCfg := { localA := ← parseHex l, lport := ← lp.toNat?, target := ← parseHex t,
                           tport := ← tp.toNat?, loosen := ← parseBool lo }
     let ops ← ops.mapM parseOp
-    pure (" ".intercalate (runOps (fun s t n _ => udpSend s t n) udpRecv { cfg, sent := [] } ops))
+    pure (" ".intercalate (runOps (fun s t n _ => udpSend s t n) udpRecv
+      (fun s t a d p => if cfg.target.length = 16 then Spec.genuineUdp6 s.cfg s.sent t a d p else Spec.genuineUdp4 s.cfg s.sent t a d p)
+      { cfg, sent := [] } ops))
   | _ => badOp
 
 def tcp : Handler
@@ -56,7 +65,7 @@ def tcp : Handler
                           tport := ← tp.toNat?, loosen := ← parseBool lo, paris := ← parseBool pa,
                           baseId := ← base.toNat?, seq := ← sq.toNat? }
     let ops ← ops.mapM parseOp
-    pure (" ".intercalate (runOps tcpSend tcpRecv { cfg, sent := [] } ops))
+    pure (" ".intercalate (runOps tcpSend tcpRecv (fun s t a d p => Spec.genuineTcp s.cfg s.sent t a d p) { cfg, sent := [] } ops))
   | _ => badOp
 
 def parseTs (s : String) : Option (Option (Nat × Nat)) :=
@@ -71,7 +80,7 @@ def sack : Handler
                            tport := ← tp.toNat?, loosen := ← parseBool lo, min := ← mn.toNat?,
                            max := ← mx.toNat?, isn := ← isn.toNat?, iack := ← iack.toNat?, ts := ← parseTs ts }
     let ops ← ops.mapM parseOp
-    pure (" ".intercalate (runOps (fun s t n _ => sackSend s t n) sackRecv { cfg, sent := [] } ops))
+    pure (" ".intercalate (runOps (fun s t n _ => sackSend s t n) sackRecv (fun s t a d p => Spec.genuineSack s.cfg s.sent t a d p) { cfg, sent := [] } ops))
   | _ => badOp
 
 def handlers : List (String × Handler) :=
